@@ -1035,7 +1035,7 @@ def instance_tie(ctx: vlib.Ctx, exprs: list[str], expect: list[Any], names: list
         if isinstance(t, T.LiteralType):
             return f"VObj LITERAL_TYPE [{ab(t.fallback)}; VExt 3 {coq_literal(t.value)}]"
         if isinstance(t, T.ExtraAttrs):
-            attrs = "; ".join(f"[VStr {coq_bytes(k.encode())}; {ab(t.attrs[k])}]" for k in t.attrs)   # write_type_map: insertion order
+            attrs = "; ".join(f"[VStr {coq_bytes(k.encode())}; {ab(t.attrs[k])}]" for k in sorted(t.attrs))   # ExtraAttrs.write writes its attrs sorted (0ca182a)
             imm = "; ".join(f"[VStr {coq_bytes(k.encode())}]" for k in sorted(t.immutable))
             mod = "VNone" if t.mod_name is None else f"VSome [VStr {coq_bytes(t.mod_name.encode())}]"
             return f"VObj EXTRA_ATTRS [VRep [{attrs}]; VRep [{imm}]; {mod}]"
